@@ -346,6 +346,14 @@ func H_sym_itoa() {
 	}
 	back, err2 := ops.Convert(s, variants.Long)
 	vAssert(err2 == nil && back != nil && back.AsLong() == x, "itoa:parses-back")
+	vAssert((s.AsString() == "12") == (x == 12), "itoa:equals-canonical-text")
+	vAssert((s.AsString() == "-7") == (x == -7), "itoa:equals-negative-text")
+	vAssert(s.AsString() != "012" && s.AsString() != "é" && s.AsString() != "" && s.AsString() != "+3", "itoa:never-a-non-canonical-text")
+	y := vInt64("y")
+	s2, _ := ops.Convert(variants.VariantFromLong(y), variants.String)
+	if s2 != nil {
+		vAssert((s.AsString() == s2.AsString()) == (x == y), "itoa:injective")
+	}
 	again, _ := ops.Convert(variants.VariantFromString(s.AsString()+"0"), variants.Long)
 	again2, _ := ops.Convert(variants.VariantFromString(s.AsString()+"0"), variants.Long)
 	if again != nil && again2 != nil {
